@@ -37,7 +37,7 @@ def parseInstr (t : String) : Option Exec.Instr :=
     else if t.startsWith "a" then some (.await k) else if t.startsWith "d" then some (.drop k)
     else if t.startsWith "s" then some (.spawn k) else if t.startsWith "k" then some (.capture k)
     else if t.startsWith "W" then some (.wake k) else if t.startsWith "x" then some (.wdrop k)
-    else if t.startsWith "g" then some (.guard k) else none
+    else if t.startsWith "g" then some (.guard k) else if t.startsWith "m" then some (.detach k) else none
 
 def parseDir (t : String) : Option Exec.Dir :=
   let arg := (t.drop 1).toString
